@@ -300,3 +300,267 @@ Proof.
   intros s ai [ls Hr]. revert ai. change (InvH s). eapply (run_inv InvH InvH_step); [| exact Hr].
   intros ai. unfold countN, req_count. simpl. lia.
 Qed.
+
+(* ================= clause 4: a successful probe reinstates; without one the adapter stays blocked ================= *)
+Lemma fold_check_reinst : forall r l s, reinst (fold_left (check_one r) l s) = reinst s.
+Proof.
+  intros r l. induction l as [| x l IH]; simpl; intros s; [reflexivity |]. rewrite IH.
+  destruct (check_one_cases r s x) as [-> | Heff]; [reflexivity |].
+  destruct Heff as (ai & a & a' & first & need & _ & _ & _ & _ & _ & _ & _ & _ & _ & _ & Hr & _). exact Hr.
+Qed.
+
+Lemma step_reinst_cases : forall s l s', step s l = Some s' ->
+  reinst s' = reinst s \/
+  (exists ai, l = Out ai true true /\ reinst s' = ai :: reinst s) \/
+  (exists ai, l = Reinstate ai /\ memN ai (reinst s) = true /\ reinst s' = remove_first ai (reinst s)).
+Proof.
+  intros s l s' Hs. destruct l; simpl in Hs.
+  - inversion Hs; subst. left; reflexivity.
+  - destruct (get ai s) as [a0 |]; [| discriminate].
+    destruct (probe && negb (memN ai (pcalls s))); [discriminate |].
+    inversion Hs; subst; clear Hs. destruct probe, ok; simpl; try (left; reflexivity).
+    right. left. exists ai. auto.
+  - inversion Hs; subst. left. apply fold_check_reinst.
+  - destruct (reg s); [discriminate |]. destruct (probeq s); [discriminate |].
+    destruct (get ai s); [| discriminate]. destruct (N.eqb n0 ai); [| discriminate].
+    inversion Hs; subst. left; reflexivity.
+  - destruct (reg s); [discriminate |]. destruct (probeq s); [| discriminate].
+    destruct (match sel s with [] => _ | _ :: _ => _ end); [| discriminate].
+    destruct (lookup e (att s)).
+    + destruct (N.eqb n0 ai); inversion Hs; subst. left; reflexivity.
+    + destruct (N.eqb ai (N.of_nat (length (objs s)))); inversion Hs; subst; clear Hs. left; reflexivity.
+  - destruct (reg s); inversion Hs; subst; left; reflexivity.
+  - destruct (get ai s) as [a0 |]; [| discriminate]. destruct (memN ai (reinst s)) eqn:Hm; [| discriminate].
+    inversion Hs; subst; clear Hs. right. right. exists ai. auto.
+  - destruct (step_refresh _ _ _ Hs) as [-> | (_ & att' & rot & _ & _ & _ & _ & _ & _ & _ & _ & _ & _ & _ & Hr & _)]; left; [reflexivity | exact Hr].
+Qed.
+
+Lemma memN_remove_first_sub : forall x y l, memN x (remove_first y l) = true -> memN x l = true.
+Proof.
+  intros x y l. induction l as [| z l IH]; simpl; [auto |]. destruct (N.eqb y z); unfold memN in *; simpl.
+  - intros H. rewrite H. apply orb_true_r.
+  - intros H. apply orb_true_iff in H. apply orb_true_iff. destruct H; auto.
+Qed.
+Lemma memN_remove_first_other : forall x y l, x <> y -> memN x l = true -> memN x (remove_first y l) = true.
+Proof.
+  intros x y l Hne. induction l as [| z l IH]; simpl; [auto |]. unfold memN in *; simpl. intros H.
+  apply orb_true_iff in H. destruct (N.eqb y z) eqn:Hyz.
+  - destruct H as [H | H]; [| exact H]. apply N.eqb_eq in H. apply N.eqb_eq in Hyz. congruence.
+  - simpl. apply orb_true_iff. destruct H; auto.
+Qed.
+
+Theorem stays_blocked : forall ls s s' ai a, run s ls = Some s' ->
+  get ai s = Some a -> ast a = false -> memN ai (reinst s) = false -> ~ In (Out ai true true) ls ->
+  exists a', get ai s' = Some a' /\ ast a' = false /\ memN ai (reinst s') = false.
+Proof.
+  induction ls as [| l ls IH]; simpl; intros s s' ai a Hr Hg Hst Hm Hno.
+  - inversion Hr; subst. eauto.
+  - destruct (step s l) as [s1 |] eqn:Hs; [| discriminate].
+    destruct (step_adapter _ _ _ _ _ Hs Hg) as [a1 [Hg1 Hc]].
+    assert (Hst1 : ast a1 = false).
+    { destruct Hc as [-> _ _ | p _ -> | p _ -> | _ Hmem _ | r _ Hc]; simpl; auto; [congruence |].
+      destruct Hc as [_ [_ [_ [_ [_ [_ [_ [Hk _]]]]]]]]. auto. }
+    assert (Hm1 : memN ai (reinst s1) = false).
+    { destruct (step_reinst_cases _ _ _ Hs) as [-> | [[aj [Hl ->]] | [aj [_ [_ ->]]]]]; [exact Hm | |].
+      - unfold memN in *. simpl. rewrite Hm. destruct (N.eqb ai aj) eqn:He; [| reflexivity].
+        apply N.eqb_eq in He. subst aj. exfalso. apply Hno. left. exact Hl.
+      - destruct (memN ai (remove_first aj (reinst s))) eqn:Hx; [| reflexivity].
+        apply memN_remove_first_sub in Hx. congruence. }
+    eapply IH; eauto.
+Qed.
+
+Theorem probe_success_reinstates : forall s ai s1 ls s2, step s (Out ai true true) = Some s1 ->
+  run s1 ls = Some s2 -> ~ In (Reinstate ai) ls ->
+  exists s3 a, step s2 (Reinstate ai) = Some s3 /\ get ai s3 = Some a /\ ast a = true /\
+               fc a = 0 /\ lfc a = 0 /\ sc a = 0 /\ gfail a = 0 /\ In (aep a) (sel s3) /\ In (aep a) (active s3).
+Proof.
+  intros s ai s1 ls s2 Hs Hr Hno.
+  assert (H1 : memN ai (reinst s1) = true /\ exists a1, get ai s1 = Some a1).
+  { simpl in Hs. destruct (get ai s) as [a0 |] eqn:Hg; [| discriminate].
+    destruct (memN ai (pcalls s)); simpl in Hs; [| discriminate]. inversion Hs; subst; clear Hs. simpl. split.
+    - unfold memN. simpl. rewrite N.eqb_refl. reflexivity.
+    - eexists. unfold get in *. cbn [objs w_reinst w_pcalls put w_objs]. eapply nth_error_upd_same; exact Hg. }
+  clear Hs. revert s1 Hr H1. induction ls as [| l ls IH]; simpl; intros s1 Hr [Hm [a1 Hg1]].
+  - inversion Hr; subst s2. unfold step. rewrite Hg1, Hm. eexists. exists (reset (now s1) a1).
+    split; [reflexivity |]. simpl.
+    split; [change (get ai (put ai (reset (now s1) a1) s1) = Some (reset (now s1) a1)); eapply get_put_same; eauto |].
+    repeat (split; [reflexivity |]). split; [apply In_add_set; right; reflexivity | apply in_or_app; right; left; reflexivity].
+  - destruct (step s1 l) as [s1' |] eqn:Hs; [| discriminate]. apply (IH (fun H => Hno (or_intror H)) s1' Hr). split.
+    + destruct (step_reinst_cases _ _ _ Hs) as [-> | [[aj [_ ->]] | [aj [Hl [_ ->]]]]]; [exact Hm | |].
+      * unfold memN in *. simpl. rewrite Hm. apply orb_true_r.
+      * apply memN_remove_first_other; [| exact Hm]. intros ->. apply Hno. left. exact Hl.
+    + destruct (step_adapter _ _ _ _ _ Hs Hg1) as [a2 [Hg2 _]]. eauto.
+Qed.
+
+(* ================= clause 5: with a non-empty registry list a call always gets an adapter ================= *)
+Theorem never_none : forall s, reachable s -> reg s <> [] ->
+  step s SelNone = None /\
+  (forall q rest, probeq s = q :: rest -> exists s', step s (SelProbe q) = Some s') /\
+  (probeq s = [] -> exists e ai s', step s (SelPick e ai) = Some s' /\
+     (sel s = [] -> In e (reg s)) /\ (sel s <> [] -> In e (sel s))).
+Proof.
+  intros s Hr Hne. destruct (InvABC_reachable s Hr) as [_ [[_ B2] _]].
+  destruct (reg s) as [| x xs] eqn:Hreg; [congruence |]. split; [simpl; rewrite Hreg; reflexivity |]. split.
+  - intros q rest Hq. destruct (B2 q) as [a Ha]; [rewrite Hq; left; reflexivity |].
+    simpl. rewrite Hreg, Hq, Ha, N.eqb_refl. eauto.
+  - intros Hq.
+    assert (Hpick : exists e, (match sel s with [] => memN e (reg s) | _ :: _ => memN e (sel s) end) = true /\
+                              (sel s = [] -> In e (reg s)) /\ (sel s <> [] -> In e (sel s))).
+    { destruct (sel s) as [| y ys].
+      - exists x. rewrite Hreg. split; [unfold memN; simpl; rewrite N.eqb_refl; reflexivity |]. split; [intros; left; reflexivity | congruence].
+      - exists y. split; [unfold memN; simpl; rewrite N.eqb_refl; reflexivity |]. split; [discriminate | intros; left; reflexivity]. }
+    destruct Hpick as [e [Hm [H1 H2]]]. rewrite Hreg in Hm.
+    destruct (lookup e (att s)) as [aj |] eqn:Hl.
+    + exists e, aj. eexists. split; [| split; [rewrite Hreg in H1; exact H1 | exact H2]].
+      simpl. rewrite Hreg, Hq, Hm, Hl, N.eqb_refl. reflexivity.
+    + exists e, (N.of_nat (length (objs s))). eexists. split; [| split; [rewrite Hreg in H1; exact H1 | exact H2]].
+      simpl. rewrite Hreg, Hq, Hm, Hl, N.eqb_refl. reflexivity.
+Qed.
+
+(* ================= the health record in the property's vocabulary ================= *)
+Definition hist_inv (ai : N) (s : state) (g k c t : Z) : Prop :=
+  now s = c /\ match get ai s with Some a => gfail a = g /\ lfc a = k /\ tS a = t | None => g = 0 /\ k = 0 /\ t = 0 end.
+
+Lemma step_now : forall s l s', step s l = Some s' -> now s' = upd_clock (now s) l.
+Proof.
+  intros s l s' Hs. destruct l; simpl in Hs; simpl.
+  - inversion Hs; subst. reflexivity.
+  - destruct (get ai s) as [a0 |]; [| discriminate].
+    destruct (probe && negb (memN ai (pcalls s))); [discriminate |].
+    inversion Hs; subst; clear Hs. destruct probe, ok; reflexivity.
+  - inversion Hs; subst. apply fold_check_now.
+  - destruct (reg s); [discriminate |]. destruct (probeq s); [discriminate |].
+    destruct (get ai s); [| discriminate]. destruct (N.eqb n0 ai); [| discriminate].
+    inversion Hs; subst. reflexivity.
+  - destruct (reg s); [discriminate |]. destruct (probeq s); [| discriminate].
+    destruct (match sel s with [] => _ | _ :: _ => _ end); [| discriminate].
+    destruct (lookup e (att s)).
+    + destruct (N.eqb n0 ai); inversion Hs; subst. reflexivity.
+    + destruct (N.eqb ai (N.of_nat (length (objs s)))); inversion Hs; subst; clear Hs. reflexivity.
+  - destruct (reg s); inversion Hs; subst; reflexivity.
+  - destruct (get ai s) as [a0 |]; [| discriminate]. destruct (memN ai (reinst s)); [| discriminate].
+    inversion Hs; subst; clear Hs. reflexivity.
+  - destruct (step_refresh _ _ _ Hs) as [-> | (_ & att' & rot & _ & _ & Hn & _)]; [reflexivity | exact Hn].
+Qed.
+
+Lemma fst_upd_lastok : forall ai c t l, fst (upd_lastok ai (c, t) l) = upd_clock c l.
+Proof. intros ai c t l. destruct l; simpl; try reflexivity. destruct ok; [destruct (N.eqb ai0 ai) |]; reflexivity. Qed.
+
+Lemma hist_step : forall ai s l s' g k c t, hist_inv ai s g k c t -> step s l = Some s' ->
+  hist_inv ai s' (upd_fails ai g l) (upd_streak ai k l) (upd_clock c l) (snd (upd_lastok ai (c, t) l)).
+Proof.
+  intros ai s l s' g k c t [Hn H] Hs. split; [rewrite (step_now _ _ _ Hs), Hn; reflexivity |].
+  destruct (get ai s) as [a |] eqn:Hg.
+  - destruct H as [H1 [H2 H3]]. destruct (step_adapter _ _ _ _ _ Hs Hg) as [a' [Hg' Hc]]. rewrite Hg'.
+    destruct Hc as [-> Hno1 Hno2 | p -> -> | p -> -> | -> _ -> | r -> Hc].
+    + destruct l; simpl; auto.
+      * destruct (N.eqb ai0 ai) eqn:He; [apply N.eqb_eq in He; subst ai0; exfalso; eapply Hno1; reflexivity |].
+        destruct ok; auto.
+      * destruct (N.eqb ai0 ai) eqn:He; [apply N.eqb_eq in He; subst ai0; exfalso; apply Hno2; reflexivity | auto].
+    + simpl. rewrite N.eqb_refl. simpl. auto.
+    + simpl. rewrite N.eqb_refl. simpl. repeat split; congruence.
+    + simpl. rewrite N.eqb_refl. simpl. auto.
+    + simpl. destruct Hc as [_ [_ [G3 [_ [G5 [_ [G7 _]]]]]]]. repeat split; congruence.
+  - destruct H as [-> [-> ->]].
+    assert (Hnop : upd_fails ai 0 l = 0 /\ upd_streak ai 0 l = 0 /\ snd (upd_lastok ai (c, 0) l) = 0).
+    { destruct l; simpl; auto.
+      - destruct (N.eqb ai0 ai) eqn:He; [| destruct ok; auto].
+        apply N.eqb_eq in He. subst ai0. simpl in Hs. rewrite Hg in Hs. discriminate.
+      - destruct (N.eqb ai0 ai) eqn:He; [| auto].
+        apply N.eqb_eq in He. subst ai0. simpl in Hs. rewrite Hg in Hs. discriminate. }
+    destruct Hnop as [-> [-> ->]].
+    destruct (get ai s') as [a' |] eqn:Hg'; [| auto].
+    destruct (step_created _ _ _ _ _ Hs Hg Hg') as [e [_ [-> _]]]. simpl. auto.
+Qed.
+
+Lemma hist_run : forall ai ls s s' g k c t, hist_inv ai s g k c t -> run s ls = Some s' ->
+  hist_inv ai s' (fold_left (upd_fails ai) ls g) (fold_left (upd_streak ai) ls k) (fold_left upd_clock ls c)
+           (snd (fold_left (upd_lastok ai) ls (c, t))).
+Proof.
+  intros ai ls. induction ls as [| l ls IH]; simpl; intros s s' g k c t H Hr.
+  - inversion Hr; subst. exact H.
+  - destruct (step s l) as [s1 |] eqn:Hs; [| discriminate].
+    pose proof (hist_step _ _ _ _ _ _ _ _ H Hs) as H1.
+    specialize (IH _ _ _ _ _ _ H1 Hr).
+    replace (upd_lastok ai (c, t) l) with (upd_clock c l, snd (upd_lastok ai (c, t) l)); [exact IH |].
+    rewrite <- (fst_upd_lastok ai c t l). symmetry. apply surjective_pairing.
+Qed.
+
+Theorem history_record : forall ls s ai a, run init ls = Some s -> get ai s = Some a ->
+  gfail a = fails_since ai ls /\ lfc a = streak ai ls /\ tS a = last_ok ai ls /\ now s = clock ls.
+Proof.
+  intros ls s ai a Hr Hg.
+  assert (H0 : hist_inv ai init 0 0 T0 0).
+  { split; [reflexivity |]. unfold get, init; simpl. destruct (N.to_nat ai); simpl; auto. }
+  destruct (hist_run ai ls init s 0 0 T0 0 H0 Hr) as [Hn H]. rewrite Hg in H. destruct H as [H1 [H2 H3]].
+  unfold fails_since, streak, last_ok, clock. auto.
+Qed.
+
+(* ================= the clauses in the history vocabulary ================= *)
+Lemma reachable_run : forall ls s, run init ls = Some s -> reachable s.
+Proof. intros ls s H. exists ls. exact H. Qed.
+
+Theorem no_fail_in_rotation_hist : forall ls s e, run init ls = Some s -> In e (reg s) ->
+  (lookup e (att s) = None \/ exists ai, lookup e (att s) = Some ai /\ fails_since ai ls < 2) -> In e (sel s).
+Proof.
+  intros ls s e Hr Hin H. apply no_fail_in_rotation; [eapply reachable_run; eauto | exact Hin |].
+  destruct H as [H | [ai [Hl Hf]]]; [left; exact H | right].
+  destruct (InvABC_reachable s (reachable_run _ _ Hr)) as [_ [[B1 _] _]]. destruct (B1 e ai Hl) as [a [Hg _]].
+  exists ai, a. split; [exact Hl |]. split; [exact Hg |].
+  destruct (history_record ls s ai a Hr Hg) as [-> _]. exact Hf.
+Qed.
+
+Theorem out_of_rotation_two_failures_hist : forall ls s e, run init ls = Some s -> In e (reg s) -> ~ In e (sel s) ->
+  exists ai a, lookup e (att s) = Some ai /\ get ai s = Some a /\ ast a = false /\ 2 <= fails_since ai ls.
+Proof.
+  intros ls s e Hr Hin Hout.
+  destruct (out_of_rotation_two_failures s e (reachable_run _ _ Hr) Hin Hout) as [ai [a [Hl [Hg [Hst H2]]]]].
+  exists ai, a. destruct (history_record ls s ai a Hr Hg) as [<- _]. auto.
+Qed.
+
+Theorem blocked_after_streak_hist : forall ls s e ai r s', run init ls = Some s -> shrunk s = false ->
+  In e (reg s) -> lookup e (att s) = Some ai ->
+  5 <= streak ai ls -> 5 <= clock ls - last_ok ai ls ->
+  step s (Check r) = Some s' ->
+  exists a', get ai s' = Some a' /\ ast a' = false /\ ~ In e (sel s') /\
+             (sel s' <> [] -> forall aj, step s' (SelPick e aj) = None).
+Proof.
+  intros ls s e ai r s' Hr Hsh Hin Hl H1 H2 Hs.
+  destruct (InvABC_reachable s (reachable_run _ _ Hr)) as [_ [[B1 _] _]]. destruct (B1 e ai Hl) as [a [Hg _]].
+  destruct (history_record ls s ai a Hr Hg) as [_ [Hk [Ht Hn]]].
+  eapply (blocked_after_streak s e ai a r s'); eauto; [eapply reachable_run; eauto | |].
+  - rewrite Hk, k_fainN. exact H1.
+  - rewrite Ht, Hn, k_failInterval. exact H2.
+Qed.
+
+(* the ghost "shrunk" changes only when a refresh drops an endpoint that has an adapter *)
+Theorem shrunk_only_by_dropping_refresh : forall s l s', step s l = Some s' -> shrunk s = false -> shrunk s' = true ->
+  exists r e ai, l = Refresh r /\ lookup e (att s) = Some ai /\ ~ In e r.
+Proof.
+  intros s l s' Hs H0 H1.
+  destruct l; simpl in Hs.
+  - inversion Hs; subst. simpl in H1. congruence.
+  - destruct (get ai s) as [a0 |]; [| discriminate].
+    destruct (probe && negb (memN ai (pcalls s))); [discriminate |].
+    inversion Hs; subst; clear Hs. destruct probe, ok; simpl in H1; congruence.
+  - inversion Hs; subst. rewrite fold_check_shrunk in H1. congruence.
+  - destruct (reg s); [discriminate |]. destruct (probeq s); [discriminate |].
+    destruct (get ai s); [| discriminate]. destruct (N.eqb n0 ai); [| discriminate].
+    inversion Hs; subst. simpl in H1. congruence.
+  - destruct (reg s); [discriminate |]. destruct (probeq s); [| discriminate].
+    destruct (match sel s with [] => _ | _ :: _ => _ end); [| discriminate].
+    destruct (lookup e (att s)).
+    + destruct (N.eqb n0 ai); inversion Hs; subst. congruence.
+    + destruct (N.eqb ai (N.of_nat (length (objs s)))); inversion Hs; subst; clear Hs. simpl in H1. congruence.
+  - destruct (reg s); inversion Hs; subst; congruence.
+  - destruct (get ai s) as [a0 |]; [| discriminate]. destruct (memN ai (reinst s)); [| discriminate].
+    inversion Hs; subst; clear Hs. simpl in H1. congruence.
+  - destruct (step_refresh _ _ _ Hs) as [-> | (_ & att' & rot & _ & _ & _ & _ & _ & _ & _ & _ & _ & _ & _ & _ & _ & _ & Hsh)]; [congruence |].
+    rewrite Hsh, H0 in H1. simpl in H1. apply existsb_exists in H1. destruct H1 as [[e ai] [Hin Hneg]]. simpl in Hneg.
+    apply negb_true_iff in Hneg. apply memN_false in Hneg.
+    clear Hs Hsh. exists l, e.
+    assert (Hex : exists ai', lookup e (att s) = Some ai').
+    { induction (att s) as [| [k v] m IH]; [destruct Hin |]. simpl. destruct (N.eqb e k) eqn:Hek; [eauto |].
+      destruct Hin as [Heq | Hin]; [inversion Heq; subst; rewrite N.eqb_refl in Hek; discriminate | auto]. }
+    destruct Hex as [ai' Hl]. exists ai'. auto.
+Qed.
